@@ -4,7 +4,7 @@
 Require Extraction.
 Require Import ExtrOcamlBasic.
 From LsmV Require Import Base.Bytes Model.Entry Model.Tree Model.Stream Model.History Model.Cert Model.Marks Model.Range Model.Prefix Model.Version Model.Bounds Model.Fifo.
-From LsmV Require Model.DataBlock Model.Bloom Model.VersionCodec Model.Ints.
+From LsmV Require Model.DataBlock Model.Bloom Model.VersionCodec Model.Ints Model.BlockIndex.
 
 Extraction Language OCaml.
 
@@ -22,4 +22,6 @@ Extraction "../ocaml/model.ml"
   LsmV.Model.DataBlock.encode_block LsmV.Model.DataBlock.decode_all LsmV.Model.DataBlock.point_read LsmV.Model.DataBlock.decode_all_back
   LsmV.Model.Bloom.bloom_build_opt LsmV.Model.Bloom.bloom_contains_opt LsmV.Model.Bloom.bloom_encode LsmV.Model.Bloom.bloom_decode
   LsmV.Model.VersionCodec.decode_tables_section LsmV.Model.VersionCodec.decode_blob_files_section LsmV.Model.VersionCodec.decode_gc_section LsmV.Model.VersionCodec.encode_tables_section
+  LsmV.Model.BlockIndex.btable_check LsmV.Model.BlockIndex.btable_get LsmV.Model.BlockIndex.mkBT LsmV.Model.BlockIndex.mkBH LsmV.Model.BlockIndex.index_of
+
   N.add N.mul N.sub N.eqb N.ltb N.leb N.of_nat N.to_nat.
